@@ -211,6 +211,16 @@ let () =
       | ["R"; f; _cuts; recs; obs] -> report_case ln ~expected:(rt f recs) ~got:obs
       | ["RX"; f; recs; obs] -> report_case ln ~expected:(rt f recs) ~got:obs
       | ["RK"; f; _k; recs; obs] -> report_case ln ~expected:(rt f recs) ~got:obs
+      | ["DX"; f; _cuts; recs_in; recs_out; obs] ->
+        (* full duplex: receiving is independent of the Sends issued meanwhile, and vice versa *)
+        let fr = parse_framing f in
+        let stream = Buffer.create 4096 in
+        List.iter (fun r -> match fr.send (bytes_of_string r) with
+          | FB.Sent o -> Buffer.add_string stream (string_of_bytes o) | FB.Refused -> ()) (parse_recs recs_in);
+        let robs = items (fr.recv_all (bytes_of_string (Buffer.contents stream))) in
+        let toks = List.map (fun r -> match fr.send (bytes_of_string r) with
+          | FB.Sent o -> "S" ^ obs_string (string_of_bytes o) | FB.Refused -> "E") (parse_recs recs_out) in
+        report_case ln ~expected:(robs ^ "#" ^ (if toks = [] then "." else String.concat "," toks)) ~got:obs
       | ["V"; f; _cuts; stream; obs] -> report_case ln ~expected:(rv f stream) ~got:obs
       | ["VW"; f; _cuts; stream; obs] -> report_case ln ~expected:(rv f stream) ~got:obs
       | ["VX"; f; stream; obs] -> report_case ln ~expected:(rv f stream) ~got:obs
